@@ -81,6 +81,13 @@ def RetConv.keeps : RetConv → Bool
   | .cast t => t.keepsIndices
   | .mapCast t => t.keepsIndices
 
+/-- the result conversions a name admits: a length, capacity or index may go
+    through a cast that keeps it; every other result (unit, bool, an element, a
+    list) is handed back as it is -/
+def retFits : BName → RetConv → Bool
+  | .len, r | .capacity, r | .index, r => r.keeps
+  | _, r => r == .asIs
+
 def castOk : Option CastTy → Bool
   | none => true
   | some t => t.keepsIndices
@@ -92,7 +99,7 @@ def castOk : Option CastTy → Bool
 def Binding.ok (b : Binding) : Bool :=
   b.name == .other ||
     (b.callee == (canon b.name).1 && b.args.map (·.1) == (canon b.name).2 &&
-      b.args.all (fun a => castOk a.2) && b.ret.keeps)
+      b.args.all (fun a => castOk a.2) && retFits b.name b.ret)
 
 /-- the names the property lists -/
 def BName.all : List BName :=
